@@ -589,3 +589,251 @@ func sharedOutputCase(i int) *sem.Case {
 	}
 	return c
 }
+
+// ---- round 12 ----
+
+// nearTwinDefaultCase: two contenders for one type name that differ ONLY in an annotation-looking keyword which the
+// generator does give a meaning: a `default` on a required property (it lifts the presence check), a default on an
+// optional one, a title / description next to it (a pure annotation: both orders must behave alike anyway).
+func nearTwinDefaultCase(i int) *sem.Case {
+	v := i % 4
+	swap := (i/4)%2 == 1
+	mk := func(variant bool) *sg.Schema {
+		mode := &sg.Schema{Types: []string{"string"}, MinLen: 2}
+		o := &sg.Schema{Types: []string{"object"}, Props: []sg.Prop{{Name: "mode", S: mode}, {Name: "port", S: &sg.Schema{Types: []string{"integer"}, Min: sg.Fp(1)}}}, Required: []string{"mode"}}
+		switch v {
+		case 0: // the required key carries a default in one of the twins
+			if variant {
+				mode.Default, mode.HasDefault = "strict", true
+			}
+		case 1: // optional key with / without default
+			o.Required = nil
+			if variant {
+				mode.Default, mode.HasDefault = "strict", true
+			}
+		case 2: // both have a default on the required key, with different values
+			mode.Default, mode.HasDefault = "strict", true
+			if variant {
+				mode.Default = "loose"
+			}
+		default: // description only - and a different required list
+			if variant {
+				mode.Desc = "how strictly to verify"
+				o.Required = []string{"mode", "port"}
+			}
+		}
+		return o
+	}
+	first, second := mk(false), mk(true)
+	if swap {
+		first, second = second, first
+	}
+	root := &sg.Schema{Types: []string{"object"}, Props: []sg.Prop{
+		{Name: "server", S: &sg.Schema{Types: []string{"object"}, Props: []sg.Prop{{Name: "tls", S: first}}}},
+		{Name: "serverTls", S: second}}}
+	c := &sem.Case{Root: root, Sig: fmt.Sprintf("near-twin-default/%d/%v", v, swap), NoAuto: true}
+	for _, o := range []jsonx.Obj{{}, {{K: "mode", V: "ab"}}, {{K: "port", V: jsonx.N(1)}}, {{K: "mode", V: "ab"}, {K: "port", V: jsonx.N(2)}}, {{K: "mode", V: nil}}, {{K: "mode", V: "a"}}} {
+		c.Docs = append(c.Docs, docgen.Doc{V: jsonx.Obj{{K: "server", V: jsonx.Obj{{K: "tls", V: o}}}}, Class: "default", Label: "nested-twin"},
+			docgen.Doc{V: jsonx.Obj{{K: "serverTls", V: o}}, Class: "default", Label: "sibling-twin"})
+	}
+	return c
+}
+
+// fractionalIntBoundCase: integer positions with NON-integral bounds in every keyword form (inclusive, numeric
+// exclusive, draft-4 boolean exclusive), positive and negative, lower and upper; documents on the integers next to the
+// bound. (Where the unchanged generator truncates the bound toward zero the disagreement is the recorded finding
+// int-bound-trunc; everything else - exclusive lower bound 2.5 admits 3 - is asserted.)
+func fractionalIntBoundCase(i int) *sem.Case {
+	b := []float64{2.5, -2.5, 0.5, -0.5, 7.25}[i%5]
+	form := (i / 5) % 6
+	mk := func() *sg.Schema {
+		s := &sg.Schema{Types: []string{"integer"}}
+		switch form {
+		case 0:
+			s.Min = sg.Fp(b)
+		case 1:
+			s.Max = sg.Fp(b)
+		case 2:
+			s.ExMin = b
+		case 3:
+			s.ExMax = b
+		case 4:
+			s.Min, s.ExMin = sg.Fp(b), true
+		default:
+			s.Max, s.ExMax = sg.Fp(b), true
+		}
+		return s
+	}
+	def := mk()
+	nul := mk()
+	nul.Types = []string{"integer", "null"}
+	root := &sg.Schema{Types: []string{"object"}, Defs: []sg.Prop{{Name: "Level", S: def}}, Props: []sg.Prop{{Name: "req", S: mk()}, {Name: "nul", S: nul}, {Name: "ref", S: &sg.Schema{Ref: "#/$defs/Level", Target: def}}}, Required: []string{"req"}}
+	c := &sem.Case{Root: root, Sig: fmt.Sprintf("fractional-int-bound/%d/%v", form, b), NoAuto: true}
+	lo := int64(b) - 2
+	for v := lo; v <= lo+5; v++ {
+		c.Docs = append(c.Docs, docgen.Doc{V: jsonx.Obj{{K: "req", V: jsonx.N(v)}}, Class: "bound", Label: "next-to-fractional-bound"},
+			docgen.Doc{V: jsonx.Obj{{K: "req", V: jsonx.N(lo + 2)}, {K: "nul", V: jsonx.N(v)}, {K: "ref", V: jsonx.N(v)}}, Class: "bound", Label: "next-to-fractional-bound-opt"})
+	}
+	return c
+}
+
+// nestedCompositionArrayCase: an allOf-composed definition (Account) with a property that is itself a composition
+// ending in a reference to the SAME base (Profile = allOf[{tags, matrix}, $ref Audited]); the inner one is reached
+// for the first time while the outer one is being merged (it sorts later, or is inline). Array limits at both nesting
+// levels of the inner composition stay enforced.
+func nestedCompositionArrayCase(i int) *sem.Case {
+	audited := &sg.Schema{Types: []string{"object"}, Props: []sg.Prop{{Name: "rev", S: &sg.Schema{Types: []string{"integer"}, Min: sg.Fp(0)}}}}
+	refA := func() *sg.Schema { return &sg.Schema{Ref: "#/$defs/Audited", Target: audited} }
+	inner := &sg.Schema{Types: []string{"array"}, Items: &sg.Schema{Types: []string{"integer"}}, MinItems: 1, MaxItems: 2}
+	own := &sg.Schema{Types: []string{"object"}, Props: []sg.Prop{{Name: "tags", S: &sg.Schema{Types: []string{"array"}, Items: &sg.Schema{Types: []string{"string"}}, MinItems: 1, MaxItems: 3}},
+		{Name: "matrix", S: &sg.Schema{Types: []string{"array"}, Items: inner, MinItems: 1, MaxItems: 2}}}}
+	profile := &sg.Schema{AllOf: []*sg.Schema{own, refA()}}
+	names := [][2]string{{"Account", "Profile"}, {"Zaccount", "Profile"}, {"Account", "Profile"}}[i%3]
+	var profProp *sg.Schema
+	root := &sg.Schema{Types: []string{"object"}, Defs: []sg.Prop{{Name: "Audited", S: audited}}}
+	if i%3 == 2 {
+		profProp = profile // inline
+	} else {
+		root.Defs = append(root.Defs, sg.Prop{Name: names[1], S: profile})
+		profProp = &sg.Schema{Ref: "#/$defs/" + names[1], Target: profile}
+	}
+	account := &sg.Schema{AllOf: []*sg.Schema{{Types: []string{"object"}, Props: []sg.Prop{{Name: "profile", S: profProp}, {Name: "login", S: &sg.Schema{Types: []string{"string"}}}}}, refA()}}
+	root.Defs = append(root.Defs, sg.Prop{Name: names[0], S: account})
+	root.Props = []sg.Prop{{Name: "account", S: &sg.Schema{Ref: "#/$defs/" + names[0], Target: account}}}
+	c := &sem.Case{Root: root, Sig: fmt.Sprintf("nested-composition-array/%d", i%3), NoAuto: true}
+	strs := func(n int) []any {
+		a := []any{}
+		for k := 0; k < n; k++ {
+			a = append(a, fmt.Sprintf("t%d", k))
+		}
+		return a
+	}
+	ints := func(n int) []any {
+		a := []any{}
+		for k := 0; k < n; k++ {
+			a = append(a, jsonx.N(int64(k)))
+		}
+		return a
+	}
+	wrap := func(p jsonx.Obj) any { return jsonx.Obj{{K: "account", V: jsonx.Obj{{K: "login", V: "l"}, {K: "profile", V: p}}}} }
+	for _, n := range []int{0, 1, 3, 4} {
+		c.Docs = append(c.Docs, docgen.Doc{V: wrap(jsonx.Obj{{K: "tags", V: strs(n)}}), Class: "items", Label: fmt.Sprintf("tags-%d", n)})
+	}
+	for _, n := range []int{0, 1, 2, 3} {
+		rows := []any{}
+		for k := 0; k < n; k++ {
+			rows = append(rows, ints(1))
+		}
+		c.Docs = append(c.Docs, docgen.Doc{V: wrap(jsonx.Obj{{K: "matrix", V: rows}}), Class: "items", Label: fmt.Sprintf("matrix-outer-%d", n)},
+			docgen.Doc{V: wrap(jsonx.Obj{{K: "matrix", V: []any{ints(n)}}}), Class: "items", Label: fmt.Sprintf("matrix-inner-%d", n)})
+	}
+	c.Docs = append(c.Docs, docgen.Doc{V: wrap(jsonx.Obj{{K: "rev", V: jsonx.N(1)}}), Class: "valid", Label: "absent"}, docgen.Doc{V: wrap(jsonx.Obj{{K: "rev", V: jsonx.N(-1)}}), Class: "bound", Label: "base-rule"})
+	return c
+}
+
+// multiTypeRuleCase: properties that list two non-null types (integer|string, number|boolean, string|integer ...) and
+// state bounds / lengths / patterns next to them. What such a position enforces is outside the model (DESIGN §3.7);
+// relationally, JSON and YAML must make the same of it, and nothing may panic.
+func multiTypeRuleCase(i int) *sem.Case {
+	lists := [][]string{{"integer", "string"}, {"string", "integer"}, {"number", "string"}, {"number", "boolean"}, {"integer", "boolean", "null"}, {"string", "array"}}
+	tl := lists[i%len(lists)]
+	port := &sg.Schema{Types: tl, Min: sg.Fp(1024), Max: sg.Fp(65535)}
+	code := &sg.Schema{Types: tl, MinLen: 2, MaxLen: 4, Pattern: "^[a-z]+$"}
+	ratio := &sg.Schema{Types: tl, ExMin: 0.0, MultipleOf: sg.Fp(0.5)}
+	// (inline positions only: a NAMED multi-typed definition is declared with one of its types, and what the two
+	// decoders make of the other type's values is scalar coercion - DESIGN §3.13)
+	root := &sg.Schema{Types: []string{"object"}, Props: []sg.Prop{{Name: "port", S: port}, {Name: "code", S: code}, {Name: "ratio", S: ratio},
+		{Name: "list", S: &sg.Schema{Types: []string{"array"}, Items: &sg.Schema{Types: tl, Max: sg.Fp(10)}}}}, Required: []string{"port"}}
+	c := &sem.Case{Root: root, Sig: fmt.Sprintf("multi-type-rule/%d", i%len(lists)), NoAuto: true, Args: []string{"--extra-imports"}}
+	vals := []any{jsonx.N(80), jsonx.N(8080), jsonx.N(70000), jsonx.Num("1.5"), jsonx.Num("0.25"), jsonx.N(0), jsonx.N(-1), "http", "x", "toolong", "AB", true, nil}
+	for _, v := range vals {
+		for _, k := range []string{"port", "code", "ratio"} {
+			d := jsonx.Obj{{K: "port", V: jsonx.N(8080)}}
+			d = d.Set(k, v)
+			c.Docs = append(c.Docs, docgen.Doc{V: d, Class: "formatparity", Label: "multi-type-" + k})
+		}
+		c.Docs = append(c.Docs, docgen.Doc{V: jsonx.Obj{{K: "port", V: jsonx.N(8080)}, {K: "list", V: []any{v, jsonx.N(3)}}}, Class: "formatparity", Label: "multi-type-item"})
+	}
+	return c
+}
+
+// derivedNameCollisionCase: a definition whose NAME equals the type name DERIVED for an inline property of another
+// definition (`Order.status` -> OrderStatus, next to a definition OrderStatus), enum / object / constrained string on
+// either side, with references to the named definition from properties that sort before and after the inline one
+// and from array items. Every position is held to its own schema.
+func derivedNameCollisionCase(i int) *sem.Case {
+	kind := i % 3
+	mk := func(which int) (*sg.Schema, any, any) {
+		switch kind {
+		case 0:
+			vals := [2][]any{{"open", "closed"}, {"new", "paid", "shipped"}}
+			return &sg.Schema{Types: []string{"string"}, HasEnum: true, Enum: vals[which]}, vals[which][1], vals[1-which][1]
+		case 1:
+			if which == 0 {
+				return &sg.Schema{Types: []string{"object"}, Props: []sg.Prop{{Name: "code", S: &sg.Schema{Types: []string{"integer"}}}}, Required: []string{"code"}}, jsonx.Obj{{K: "code", V: jsonx.N(1)}}, jsonx.Obj{{K: "text", V: "t"}}
+			}
+			return &sg.Schema{Types: []string{"object"}, Props: []sg.Prop{{Name: "text", S: &sg.Schema{Types: []string{"string"}}}}, Required: []string{"text"}}, jsonx.Obj{{K: "text", V: "t"}}, jsonx.Obj{{K: "code", V: jsonx.N(1)}}
+		default:
+			if which == 0 {
+				return &sg.Schema{Types: []string{"string"}, MaxLen: 3}, "abc", "abcdef"
+			}
+			return &sg.Schema{Types: []string{"string"}, MinLen: 5}, "abcdef", "abc"
+		}
+	}
+	inline, inGood, inBad := mk(0)
+	named, nmGood, nmBad := mk(1)
+	order := &sg.Schema{Types: []string{"object"}, Props: []sg.Prop{{Name: "status", S: inline}, {Name: "id", S: &sg.Schema{Types: []string{"integer"}}}}}
+	ref := func() *sg.Schema { return &sg.Schema{Ref: "#/$defs/OrderStatus", Target: named} }
+	switch (i / 3) % 3 {
+	case 0: // the reference sits inside Order, after the inline property
+		order.Props = append(order.Props, sg.Prop{Name: "wanted", S: ref()}, sg.Prop{Name: "trail", S: &sg.Schema{Types: []string{"array"}, Items: ref()}})
+	case 1: // before it
+		order.Props = append(order.Props, sg.Prop{Name: "earlier", S: ref()}, sg.Prop{Name: "a_trail", S: &sg.Schema{Types: []string{"array"}, Items: ref()}})
+	}
+	root := &sg.Schema{Types: []string{"object"}, Defs: []sg.Prop{{Name: "Order", S: order}, {Name: "OrderStatus", S: named}},
+		Props: []sg.Prop{{Name: "order", S: &sg.Schema{Ref: "#/$defs/Order", Target: order}}, {Name: "zlast", S: ref()}}}
+	if (i/9)%2 == 1 {
+		root.Props = append(root.Props, sg.Prop{Name: "afirst", S: ref()})
+	}
+	c := &sem.Case{Root: root, Sig: fmt.Sprintf("derived-name-collision/%d/%d/%d", kind, (i/3)%3, (i/9)%2), NoAuto: true}
+	c.Docs = append(c.Docs, docgen.Doc{V: jsonx.Obj{{K: "order", V: jsonx.Obj{{K: "status", V: inGood}}}}, Class: "collision", Label: "inline-own"},
+		docgen.Doc{V: jsonx.Obj{{K: "order", V: jsonx.Obj{{K: "status", V: inBad}}}}, Class: "collision", Label: "inline-other"},
+		docgen.Doc{V: jsonx.Obj{{K: "zlast", V: nmGood}}, Class: "collision", Label: "named-own"}, docgen.Doc{V: jsonx.Obj{{K: "zlast", V: nmBad}}, Class: "collision", Label: "named-other"})
+	for _, p := range order.Props {
+		if p.Name == "status" || p.Name == "id" {
+			continue
+		}
+		g, b := any(nmGood), any(nmBad)
+		if p.S.Items != nil {
+			g, b = []any{nmGood}, []any{nmGood, nmBad}
+		}
+		c.Docs = append(c.Docs, docgen.Doc{V: jsonx.Obj{{K: "order", V: jsonx.Obj{{K: p.Name, V: g}}}}, Class: "collision", Label: "ref-own"}, docgen.Doc{V: jsonx.Obj{{K: "order", V: jsonx.Obj{{K: p.Name, V: b}}}}, Class: "collision", Label: "ref-other"})
+	}
+	if (i/9)%2 == 1 {
+		c.Docs = append(c.Docs, docgen.Doc{V: jsonx.Obj{{K: "afirst", V: nmGood}}, Class: "collision", Label: "named-own"}, docgen.Doc{V: jsonx.Obj{{K: "afirst", V: nmBad}}, Class: "collision", Label: "named-other"})
+	}
+	return c
+}
+
+// percentStringCase: string properties whose NAMES contain percent signs (fmt verbs, %%, %!) and that carry
+// minLength / maxLength / pattern, required and optional: the key still binds to its field, so the rules are enforced.
+func percentStringCase(i int) *sem.Case {
+	names := [][]string{{"cpu%", "plain"}, {"load%d", "a%sb"}, {"rate%%", "x%!y"}, {"%v", "q%[1]d"}}[i%4]
+	obj := &sg.Schema{Types: []string{"object"}}
+	for _, n := range names {
+		obj.Props = append(obj.Props, sg.Prop{Name: n, S: &sg.Schema{Types: []string{"string"}, MinLen: 2, MaxLen: 4, Pattern: "^[0-9]+%?$"}})
+	}
+	if (i/4)%2 == 1 {
+		obj.Required = names[:1]
+	}
+	root := &sg.Schema{Types: []string{"object"}, Props: []sg.Prop{{Name: "usage", S: obj}}}
+	c := &sem.Case{Root: root, Sig: fmt.Sprintf("percent-string/%d", i%8), NoAuto: true}
+	for _, n := range names {
+		for _, v := range []string{"75%", "7", "12345", "ab", "10"} {
+			d := jsonx.Obj{{K: names[0], V: "50%"}}
+			d = d.Set(n, v)
+			c.Docs = append(c.Docs, docgen.Doc{V: jsonx.Obj{{K: "usage", V: d}}, Class: "string", Label: "percent-name-" + n})
+		}
+	}
+	return c
+}
